@@ -108,6 +108,11 @@ pub fn retire_probe(addr: usize) {
 }
 
 thread_local! {
+    /// operations a callback performed on the collection it is being called from
+    static NESTED: std::cell::RefCell<Vec<OpRec>> = const { std::cell::RefCell::new(Vec::new()) };
+}
+
+thread_local! {
     /// verdicts of the retain callbacks of the operation in flight (survives a panicking callback)
     static CB_LOG: std::cell::RefCell<Vec<PredRec>> = const { std::cell::RefCell::new(Vec::new()) };
 }
@@ -509,6 +514,7 @@ fn exec_op(ctx: &mut Ctx<'_>, op: &Op) -> Res {
             Res::Compute { calls, saw, saw_n, ret, ret_n, call_clock }
         }),
         (Tgt::Map(m), Op::Retain(p)) | (Tgt::Map(m), Op::RetainForce(p)) => with_guard(ctx, |ctx, g| {
+            let thread = ctx.thread;
             CB_LOG.with(|l| l.borrow_mut().clear());
             let mut errs = Vec::new();
             let f = |kk: &Key, v: &Val| -> bool {
@@ -529,6 +535,21 @@ fn exec_op(ctx: &mut Ctx<'_>, op: &Op) -> Res {
                 callback_tick(sh);
                 let keep = p.keep(k, vid);
                 CB_LOG.with(|l| l.borrow_mut().push(PredRec { k, kinst, vid, keep, clock: sched::now() }));
+                if let Pred::ReinsertReject(rk, rvid) = p {
+                    if *rk == k {
+                        // the predicate replaces the entry it has just been shown
+                        let inv = sched::op_start();
+                        let key = Key::new(k);
+                        let nk = key.inst;
+                        // a predicate may be shown the same key more than once (its own insert can
+                        // land ahead of the iterator): every write still gets a unique value id
+                        let nth = NESTED.with(|n| n.borrow().len()) as u32;
+                        let vid = *rvid + 10_000_000 * nth;
+                        let old = m.insert(key, Val::new(vid), g).map(|v| v.read().map(|x| x.0).unwrap_or(NONE));
+                        let ret = sched::op_end();
+                        NESTED.with(|n| n.borrow_mut().push(OpRec { thread, idx: 9000 + nth as u16, op: Op::Insert(k, vid), inv, ret, res: Res::Opt(old), new_kinst: nk }));
+                    }
+                }
                 keep
             };
             let force = matches!(op, Op::RetainForce(_));
@@ -628,6 +649,7 @@ fn exec_op(ctx: &mut Ctx<'_>, op: &Op) -> Res {
             Res::KV(r.map(|a| (kread(ctx, unsafe { &*a }, "set.take").1, 0)))
         }),
         (Tgt::Set(s), Op::Retain(p)) | (Tgt::Set(s), Op::RetainForce(p)) => with_guard(ctx, |ctx, g| {
+            let thread = ctx.thread;
             CB_LOG.with(|l| l.borrow_mut().clear());
             let mut errs = Vec::new();
             let f = |kk: &Key| -> bool {
@@ -641,6 +663,16 @@ fn exec_op(ctx: &mut Ctx<'_>, op: &Op) -> Res {
                 callback_tick(sh);
                 let keep = p.keep(k, 0);
                 CB_LOG.with(|l| l.borrow_mut().push(PredRec { k, kinst, vid: 0, keep, clock: sched::now() }));
+                if let Pred::ReinsertReject(rk, _) = p {
+                    if *rk == k {
+                        let inv = sched::op_start();
+                        let key = Key::new(k);
+                        let nk = key.inst;
+                        let fresh = s.insert(key, g);
+                        let ret = sched::op_end();
+                        NESTED.with(|n| n.borrow_mut().push(OpRec { thread, idx: 9000, op: Op::Insert(k, 0), inv, ret, res: Res::Bool(fresh), new_kinst: nk }));
+                    }
+                }
                 keep
             };
             if pinned { s.with_guard(g).retain(f) } else { s.retain(f, g) }
@@ -852,6 +884,9 @@ pub fn universe(p: &Program) -> Vec<u32> {
             if let Op::Extend(kv) = o {
                 ks.extend(kv.iter().map(|x| x.0));
             }
+            if let Op::Retain(Pred::ReinsertReject(k, _)) | Op::RetainForce(Pred::ReinsertReject(k, _)) = o {
+                ks.push(*k);
+            }
         }
     }
     ks.sort_unstable();
@@ -1060,6 +1095,7 @@ pub fn execute(p: &Program, mut setup: RunSetup, opts: &ExecOpts) -> RunResult {
                     }
                 };
                 hist.push(OpRec { thread: ti as u8, idx: i as u16, op: op.clone(), inv, ret, res, new_kinst: ctx.new_kinst });
+                NESTED.with(|n| hist.append(&mut n.borrow_mut()));
                 if let Some(k) = sh.midrun_every {
                     if (i as u32 + ti as u32) % k.max(1) == 0 {
                         midrun_inspect(sh, ti as u8, i);
